@@ -211,6 +211,22 @@ add("C16", "E3 sock-mc (fault enumeration at every byte offset)", "model_checkin
     "this check.",
     "exhaustive fault-point enumeration with deviation-bounded schedule exploration on the real sockets")
 
+add("C17", "E4 rt-grid + E3 sock-mc", "model_checking",
+    "Two parts. E3 (model checking under the controlled executor): for each of the 9 real socket types the socket is dropped at "
+    "each point of a scenario with an established peer with traffic and a second peer at 3 handshake stages, under every schedule "
+    "within the deviation bound, 2 policies and several peer-table hash keys, plus a targeted history (drop right after a recv that "
+    "another peer's registration was queued behind): the drop must return (a synchronous wait on a lock owned by a suspended task of "
+    "the only thread is detected through a seam in the vendored saa crate and reported as thread-blocked), every connection half "
+    "must be dropped and every library-spawned task completed by quiescence. E4 (real tokio runtime and real TCP v4 / v6 / IPC; OS "
+    "schedules not enumerated): the complete grid 9 types x 3 transports x 6 history prefixes x {close, drop} = 324 cases with "
+    "monotone conditions awaited up to 5 s: connects refused (at once after close() returns), IPC file gone, endpoint bindable "
+    "again, every established peer and every client parked in the handshake sees EOF, close() reports nothing, alive-task count back "
+    "to baseline.",
+    "DESIGN.md 5.17",
+    "E4 does not own OS scheduling; its oracles are schedule-insensitive. close()'s error reporting is checked only for failure-free "
+    "closes. TCP cases run one at a time (port reuse between parallel cases would fake a surviving listener).",
+    "stateless deviation-bounded DFS over the real sockets (drop at every point) + exhaustive configuration/history grid on the real runtime")
+
 PENDING = ["C01","C02","C03","C04","C05","C06","C07","C08","C09","C10","C11","C12","C13","C14","C15","C16","C17","C18","C20"]
 
 def main():
